@@ -86,7 +86,7 @@ func (c *c08Run) checkCross(lg *ledger.Ledger, h int, bi *blockInfo, phase strin
 		c.violate("cross-root-unavailable", obj{"h": h, "err": err.Error(), "phase": phase})
 		return
 	}
-	if hdr, err := lg.GetHeaderByHeight(uint32(h + 1)); err == nil && hdr.CrossStateRoot != root {
+	if hdr, err := lg.GetHeaderByHeight(uint32(h + 1)); err == nil && hdr != nil && hdr.CrossStateRoot != root {
 		vio.Fatal("harness: header %d does not carry GetCrossStateRoot(%d)", h+1, h)
 	}
 	row := c.cross[fmt.Sprintf("%s/%d", bi.lab, k)]
@@ -154,7 +154,7 @@ func (c *c08Run) checkBlockProof(lg *ledger.Ledger, h, r int, hashes []common.Ui
 		return
 	}
 	hdr, err := lg.GetHeaderByHeight(uint32(r))
-	if err != nil {
+	if err != nil || hdr == nil {
 		vio.Fatal("header %d: %v", r, err)
 	}
 	val, err := merkle.MerkleProve(path, hdr.BlockRoot[:])
